@@ -89,8 +89,14 @@ impl PortFilter {
     /// // Matches ports 8000 through 8999
     /// ```
     pub fn destination_range(mut self, range: std::ops::Range<u16>) -> Self {
-        self.destination_ranges
-            .push((range.start, range.end.saturating_sub(1)));
+        if range.is_empty() {
+            // An empty half-open range is a constraint that admits no port
+            // (stored as an inclusive pair whose bounds can never be satisfied).
+            self.destination_ranges.push((u16::MAX, 0));
+        } else {
+            self.destination_ranges
+                .push((range.start, range.end.saturating_sub(1)));
+        }
         self
     }
 
@@ -105,8 +111,14 @@ impl PortFilter {
     /// // Matches ports 10000 through 19999
     /// ```
     pub fn source_range(mut self, range: std::ops::Range<u16>) -> Self {
-        self.source_ranges
-            .push((range.start, range.end.saturating_sub(1)));
+        if range.is_empty() {
+            // An empty half-open range is a constraint that admits no port
+            // (stored as an inclusive pair whose bounds can never be satisfied).
+            self.source_ranges.push((u16::MAX, 0));
+        } else {
+            self.source_ranges
+                .push((range.start, range.end.saturating_sub(1)));
+        }
         self
     }
 
